@@ -35,3 +35,32 @@ def hex (bs : List Nat) : String :=
 def joinSp (xs : List String) : String := " ".intercalate xs
 
 end Flute.Drv
+
+namespace Flute.Drv
+
+/-- Generic line-protocol loop: one output line per input line; `case <id>` lines are echoed and
+    reset the engine state; the first token of every other line is the engine name (dropped). -/
+partial def driverLoop {σ : Type} (init : σ) (step : σ → List String → σ × String)
+    (hin hout : IO.FS.Stream) (st : σ) : IO Unit := do
+  let line ← hin.getLine
+  if line.isEmpty then return ()
+  let l := line.trimAscii.toString
+  match l.splitOn " " with
+  | "case" :: _ =>
+    hout.putStrLn l
+    driverLoop init step hin hout init
+  | _ :: args =>
+    let (st', out) := step st args
+    hout.putStrLn out
+    driverLoop init step hin hout st'
+  | [] =>
+    hout.putStrLn "bad-op"
+    driverLoop init step hin hout st
+
+def runDriver {σ : Type} (init : σ) (step : σ → List String → σ × String) : IO Unit := do
+  let hin ← IO.getStdin
+  let hout ← IO.getStdout
+  driverLoop init step hin hout init
+  hout.flush
+
+end Flute.Drv
